@@ -1,7 +1,7 @@
 (* C01 — property theorems only.  Each is closed by [exact] of a lemma from Proofs*.v and followed by
    Print Assumptions.  Index lists are lists over Z: [zrange 0 n] is 0,1,..,n-1 (the text's seq 0 n). *)
 From Common Require Import Prelude CxxSem.
-From C01 Require Import Model ProofsArith ProofsEnki ProofsTrace.
+From C01 Require Import Model ProofsArith ProofsEnki ProofsTrace ProofsHist.
 From Coq Require Import Permutation.
 Local Open Scope Z_scope.
 
@@ -181,6 +181,48 @@ Theorem foreach_indices : forall base size count, 0 < size ->
   (forall a, In a (foreach_addrs base size count) <-> exists i, 0 <= i < count /\ a = base + i * size).
 Proof. exact foreach_once. Qed.
 Print Assumptions foreach_indices.
+
+(* ================================================================== histories of loops *)
+(* Loops run in histories, and a body may fail (exceptional outcome, where the backend defines it).  What a loop may
+   do is judged from its own request: a history is admissible iff each of its loops is — no cross term *)
+Theorem history_independent : forall h1 h2 o1 o2, length h1 = length o1 ->
+  (history_admissible (h1 ++ h2) (o1 ++ o2) <-> history_admissible h1 o1 /\ history_admissible h2 o2).
+Proof. exact history_split. Qed.
+Print Assumptions history_independent.
+
+(* after any earlier loops, however they ended, an ordinary loop runs every index of [0,n) exactly once *)
+Theorem history_later_loop_complete : forall h1 o1 r o h2 o2, length h1 = length o1 ->
+  history_admissible (h1 ++ r :: h2) (o1 ++ o :: o2) -> h_throw r = None ->
+  exists c, o = HNormal c /\ Permutation c (zrange 0 (h_count r)).
+Proof. exact later_loop_complete. Qed.
+Print Assumptions history_later_loop_complete.
+
+Theorem history_prefix_irrelevant : forall h1 o1 h1' o1' h2 o2, length h1 = length o1 -> length h1' = length o1' ->
+  history_admissible (h1 ++ h2) (o1 ++ o2) -> history_admissible h1' o1' -> history_admissible (h1' ++ h2) (o1' ++ o2).
+Proof. exact ProofsHist.history_prefix_irrelevant. Qed.
+Print Assumptions history_prefix_irrelevant.
+
+(* the serial (Debug) backend, executably: every history it produces is admissible, failing loops included *)
+Theorem serial_history_admissible : forall h, history_admissible h (run_history_serial h).
+Proof. exact run_history_serial_admissible. Qed.
+Print Assumptions serial_history_admissible.
+
+(* internal backend: every loop of a history runs on its own fresh task set (AddTaskSetToPipe resets m_RunningCount,
+   src_AddTaskSetToPipe_is_init), so each one that has joined is complete, whatever the others did *)
+Theorem enki_history_complete : forall runs : list (params * nat * st),
+  Forall (fun x => let '(p, t0, s) := x in wf_params p /\ (t0 < P_T p)%nat /\ reachable p t0 s /\ joined s) runs ->
+  Forall (fun x => let '(p, t0, s) := x in Permutation (done s) (zrange 0 (P_n p))) runs.
+Proof.
+  intros runs H. eapply Forall_impl; [|exact H]. intros [[p t0] s] (W & Ht & R & J).
+  exact (join_complete p s (inv_reachable p t0 s W Ht R) J).
+Qed.
+Print Assumptions enki_history_complete.
+
+Example demo_history :
+  run_history_serial [ {| h_backend := BDebug; h_ty := TInt; h_n := 5; h_throw := Some 2 |};
+                       {| h_backend := BDebug; h_ty := TInt; h_n := 4; h_throw := None |} ]
+  = [HThrew [0; 1; 2]; HNormal [0; 1; 2; 3]].
+Proof. vm_compute. reflexivity. Qed.
 
 (* ================================================================== non-vacuity *)
 (* a complete non-trivial schedule of the repaired machine: n = 13, 3 threads, writes, a steal, a split of
